@@ -150,8 +150,13 @@ impl Monitor for C09 {
                 json!({"kind": "bytes", "tables": t.spec.text(), "stmt": *rng.pick(&["SELECT * FROM t", "SELECT k , COUNT ( * ) FROM t GROUP BY k", "SELECT input FROM t", "SELECT DISTINCT k FROM t LIMIT 2"]), "files": [[{"hex": hex}], ["k=a|g=1\n"]], "format": format})
             }
             _ => {
-                let lines: Vec<String> = (0..(1 + rng.below(8))).map(|_| hostile_real_line(rng)).collect();
-                let stmt = match rng.below(6) {
+                // one case in eight: groups of dozens to hundreds of hostile values (sorting, selection and hashing code that takes another
+                // path beyond some size must survive NaN, infinities and signed zeros there too)
+                let big = rng.chance(1, 8);
+                let nl = if big { *rng.pick(&[21usize, 22, 33, 64, 65, 129, 300]) } else { 1 + rng.below(8) };
+                let lines: Vec<String> = (0..nl).map(|_| hostile_real_line(rng)).collect();
+                let stmt = match if big && rng.chance(1, 2) { 99 } else { rng.below(6) } {
+                    99 => (*rng.pick(&["SELECT k , PERCENTILE ( r , 0.5 ) , PERCENTILE ( r , 0.9 ) , MIN ( r ) , MAX ( r ) , COUNT ( DISTINCT r ) FROM t GROUP BY k", "SELECT PERCENTILE ( r , 0.5 ) , PERCENTILE ( i , 0.5 ) , PERCENTILE ( iv , 0.9 ) FROM t", "SELECT DISTINCT r , i FROM t", "SELECT r , COUNT ( * ) , array_agg ( r ) FROM t GROUP BY r"])).to_string(),
                     0 => rng.pick(HOSTILE_STATEMENTS).to_string(),
                     // every operator and two-argument function over every pair of operand types and extreme literals (most
                     // combinations are type errors today; whatever they are or become, they must be values or errors)
